@@ -19,8 +19,9 @@ from . import common
 from . import integ_common as ic
 
 PROP = "C02"
-LEAN_MODULES = ["MiciVerif.Props.C02", "MiciVerif.Props.C02Implicit", "MiciVerif.Props.C02S", "MiciVerif.Props.C06S"]
-GENERATED = ["integ_steps"]   # tools/extractors/integ_steps.py -> Generated/IntegSteps.lean (step structure of every class)
+LEAN_MODULES = ["MiciVerif.Props.C02", "MiciVerif.Props.C02Implicit", "MiciVerif.Props.C02S", "MiciVerif.Props.C06S",
+                "MiciVerif.Props.C02L"]  # C02L: the solver mirror `solveDirect` = the loop generated from solvers.py
+GENERATED = ["integ_steps", "solver_loops"]   # tools/extractors/integ_steps.py -> Generated/IntegSteps.lean (step structure of every class)
 LEAN_EXTRA = ["MiciVerif.Model.Integrators", "MiciVerif.Lemmas.IntegratorsExec", "MiciVerif.Proto", "MiciVerif.Model.IntegratorsImplicit"]
 
 
